@@ -177,7 +177,8 @@ Theorem C12_parseinfo_delimits :
   ev (Syntax.r_exp rl) (Engine.push (Engine.newf (fst k)))
      (if Calls.left_recursion ec then Calls.memoize ec rl st k Calls.OGuard else st) = (Engine.Ok v fb, st2) ->
   (Syntax.r_isname rl && Calls.is_keyword upper ic ec (Engine.fold fb))%bool = false ->
-  act r (Engine.fold fb) = Calls.ANone -> Engine.fold fb = Value.VDict a -> Calls.parseinfo ec = true ->
+  act r (Engine.fold fb) = Calls.ANone -> Engine.fold fb = Value.VDict a -> Value.ast_has a Value.key_at = false ->
+  Calls.parseinfo ec = true ->
   let info := Value.VInfo r (fst k) (Engine.pos fb) (lineat (fst k)) (lineat (Engine.pos fb)) in
   let node := Value.VDict (Value.ast_put (Value.ast_put a Calls.key_parseinfo info) Calls.key_parseinfo2 info) in
   Calls.rule_call upper ic ec act lineat ev rl r k st
